@@ -39,6 +39,10 @@ pub(crate) fn cleanup(module: &mut Module) {
 
     let mut to_delete = vec![false; module.function.len()];
     while let Some(del_idx) = delete_queue.pop() {
+        if to_delete[del_idx] {
+            // a function can be queued more than once; it is only handled the first time
+            continue;
+        }
         let name = module.function[del_idx].name.clone();
         to_delete[del_idx] = true;
 
